@@ -12,6 +12,7 @@ package main
 import (
 	"encoding/json"
 	"fmt"
+	"math/rand/v2"
 	"os"
 	"path/filepath"
 	"regexp"
@@ -113,7 +114,16 @@ func (r *runner) run(c *fedlab.Case, key string) (*fedlab.Verdict, error) {
 	if err != nil {
 		return nil, err
 	}
-	return fedlab.Check(lab, c.Op.Text(), c.Op.Name, []byte(c.Op.VariablesJSON()), nil), nil
+	var ro *fedlab.RunOptions
+	if ms := os.Getenv("C01_DELAY_MS"); ms != "" {
+		// experiment: hold every subgraph response for a while so that concurrent fetches overlap
+		var n int
+		fmt.Sscan(ms, &n)
+		ro = &fedlab.RunOptions{BeforeRespond: func(int, *fedlab.Request) fedlab.Action {
+			return fedlab.Action{Delay: time.Duration(rand.IntN(n*1000+1)) * time.Microsecond}
+		}}
+	}
+	return fedlab.Check(lab, c.Op.Text(), c.Op.Name, []byte(c.Op.VariablesJSON()), ro), nil
 }
 
 // ---------------------------------------------------------------- replay files
